@@ -134,6 +134,9 @@ def cases_quick(rng, scale=1):
         if form == 'int' and ea % 1000: continue
         s = {'iters': [{'clock': c} for c in clocks], 'exit_after': ea}
         cases.append({'name': 'exit_after:' + form, 'prop': 'clean', 'obey': 'all', 'loop_exc': lx, 'script': s, 'topo': 'both', 'exit_after_form': form})
+    for form, pos in itertools.product(L.EXIT_AFTER_FORMS[:4], [0, 1, 2]):   # the deadline passes in an iteration whose send gives up after outputs_timeout (consumer not asking)
+        its = [{'clock': 500}, {'clock': 2000}, {'clock': 2500}]; its[pos]['send'] = 'busy'
+        cases.append({'name': 'exit_after+busy:' + form, 'prop': 'clean', 'obey': 'all', 'loop_exc': True, 'script': {'iters': its, 'exit_after': 2000}, 'topo': 'both', 'exit_after_form': form})
     for form in L.EXIT_AFTER_FORMS:   # deadline passes while process raises / exit message ignored
         for it1 in ({'process': 'raise', 'clock': 2000}, {'recv': 'msg:error', 'clock': 2000}, {'send': 'stop', 'clock': 2000}):
             s = {'iters': [dict(it1), {'clock': 2500}, {'clock': 3000}], 'exit_after': 2000}
